@@ -125,6 +125,29 @@ def rule_history(crate):
         else:
             bad = [k2 for k2 in want if table[k2] != want[k2]]
             out.violation(key, sf, sv["line"], "save does not write exactly the successful lines: with (is_err, include_err_lines) = %s the item is %s" % (bad[0], "written" if table[bad[0]] else "dropped"))
+    # `reset` starts a new session: the command runner must also start a new history, otherwise `save` writes the inputs
+    # of the discarded session as well and the file does not replay to the current session
+    runner = crate.find_fn("command::CommandRunner::try_run_command", required=False)
+    if runner is None:
+        out.error("anchor missing: CommandRunner::try_run_command")
+    else:
+        rf = crate.file_of(runner)
+        arm = None
+        for m in walk(runner["body"]):
+            if m.get("k") == "Match" and str(m.get("src")) == "Normal":
+                for a in m["arms"]:
+                    if any(p.get("variant") == "Reset" for p in walk(a["pat"])):
+                        arm = a
+        if arm is None:
+            out.error("anchor missing: ParsedCommand::Reset arm of try_run_command")
+        else:
+            resets = [x for x in walk(arm["body"]) if x.get("k") in ("Assign",) and "SessionHistory" in crate.ty(x["l"])]
+            clears = [x for x in walk(arm["body"]) if x.get("k") == "MethodCall" and x["name"] in ("clear", "reset", "truncate") and "session_history" in str((place_path(x["recv"]) or (0, "", []))[1:])]
+            af, al = crate.loc(runner, arm["pat"])
+            if resets or clears:
+                out.ok("reset:new-history", af, al, "`reset` replaces / clears the session history")
+            else:
+                out.violation("reset:new-history", af, al, "`reset` discards the session but keeps its history: `unit foo; reset; unit foo; save f.nbt` writes both definitions and `numbat f.nbt` fails — the saved file does not replay to the session")
     out.analysed = {"append_sites": len(appends), "loops": len(loops)}
     out.floor("append_sites", len(appends), 1)
     return out
